@@ -73,6 +73,7 @@ def run(prop: str, tier: str) -> int:
         dtol = inspect.signature(get_angle_spec_from_float).parameters["tol"].default
         sdk_angles = [a for a in angles(tier, random.Random(C.seed() * 17 + 3))][: (300 if tier == "quick" else 10000)]
         sdk_angles += [2 * math.pi - e for e in (1e-3, 1e-4, 5e-5, 2e-5, 1e-5, 1e-6, 1e-7)] + [-e for e in (1e-4, 2e-5, 1e-6)] + [k_ * 2 * math.pi + s_ * e_ for k_ in (0, 1, 2, -1) for s_ in (1, -1) for e_ in (1.5e-4, 3e-4, 5e-4, 9e-4)] + \
+            [math.pi, math.pi, math.pi, math.pi + 0.01, math.pi + 0.01, math.pi + 0.01, 3 * math.pi + 0.005, -math.pi + 0.015, math.pi + 0.02, math.pi + 0.02] + \
             [-7.0, -5 * math.pi / 2, -4 * math.pi - 0.3, -100.0, -2 * math.pi - 1e-3, 100.0, 7.0] + \
             [4 * math.pi - 1e-6, math.pi - 1e-6, math.pi + 1e-6, 0.0, 0.0, 0.0, -0.0, -0.0, -0.0, 2 * math.pi, 2 * math.pi, 2 * math.pi]
         nsdk = 0
@@ -94,7 +95,12 @@ def run(prop: str, tier: str) -> int:
                         h.setStream(devnull)
                     set_log_level("DEBUG")
                 try:
-                    conn = rig.VConnection("alice", max_qubits=2, **({"hardware_config": NVHardwareConfig(2)} if nvcfg else {}))
+                    nvt = j % 4 == 1       # compiled by the NV transpiler (simulation: rotations pass through, whole turns may be dropped)
+                    if nvt:
+                        from netqasm.sdk.transpile import NVSubroutineTranspiler
+                        conn = rig.VConnection("alice", max_qubits=2, nv=True, compiler=NVSubroutineTranspiler)
+                    else:
+                        conn = rig.VConnection("alice", max_qubits=2, **({"hardware_config": NVHardwareConfig(2)} if nvcfg else {}))
                     q = Qubit(conn)
                     # (n, d) are documented to be ignored whenever `angle` is given: every third call passes both
                     getattr(q, axis)(angle=a, **({"n": 1 + j % 3, "d": 1 + j % 2} if j % 3 == 1 else {}))
@@ -111,7 +117,7 @@ def run(prop: str, tier: str) -> int:
                 continue
             nsdk += 1
             row = case(len(rows) + 1, prop, a, dtol, steps)
-            row["via"] = axis + ("/nv-config" if nvcfg else "") + ("/debug-log" if debug else "")
+            row["via"] = axis + ("/nv-config" if nvcfg else "") + ("/nv-transpiler" if j % 4 == 1 else "") + ("/debug-log" if debug else "")
             rows.append(row)
         res = C.run_tlc_sharded("AngleTrace", rows, tmp, shards=C.ncpu())
         bad = {}
